@@ -12,7 +12,8 @@ From CC Require Import Deque.DequeModel Deque.DequeProofs Deque.DequeProofs2 Deq
 From CC Require Import PQueue.PQueueModel PQueue.PQueueProofs PQueue.PQueueProofs2.
 From CC Require Import Hash.HashModel Hash.HashProofsA Hash.HashProofsB Hash.HashProofsC Hash.HashProofsD Hash.HashProofsE.
 From CC Require Import Tst.TstModel Tst.TstProofs1 Tst.TstProofs2 Tst.TstProofs3 Tst.TstProofs4.
-From CC Require Import Rbuf.RbufModel Rbuf.RbufProofs.
+From CC Require Import Rbuf.RbufModel Rbuf.RbufProofs List_.ListModel SList.SListModel.
+@MODULES@
 Local Open Scope N_scope."""
 THEOREMS = [
   ("C16_array_inert", "CC.Array.ArrayMore.arr_err_inert", "CC_Array: a non-OK status returns the same array; the ledger is untouched unless the error is a refused allocation"),
@@ -31,5 +32,14 @@ THEOREMS = [
   ("C16_hashtable_get_missing", "CC.Hash.HashProofsE.ht_get_missing", ""),
   ("C16_tst_missing", "CC.Tst.TstProofs2.tst_remove_missing_inert", "CC_TSTTable: get/remove of a missing key"),
   ("C16_rbuf_dequeue_empty", "CC.Rbuf.RbufProofs.rb_dequeue_empty_inert", "CC_Rbuf: dequeue on empty"),
+  ("C16_list_frame", "List_:step_frame", "CC_List: every non-OK status leaves both lists unchanged"),
+  ("C16_slist_frame", "sstep_frame", "CC_SList"),
+  ("C16_list_get_node_guard", "g_get_node_at_range_iff", "CC_List generated guards: get/replace/remove/add at index need [0,size); add_all_at / splice_at accept [0,size]"),
+  ("C16_list_add_all_at_guard", "g_add_all_at_range_iff", ""),
+  ("C16_list_splice_at_guard", "g_splice_at_range_iff", ""),
+  ("C16_list_sublist_guard", "g_sublist_range_iff", ""),
+  ("C16_slist_get_node_guard", "g_slist_get_node_at_range_iff", "CC_SList generated guards"),
+  ("C16_slist_splice_at_guard", "g_slist_splice_at_range_iff", ""),
+  ("C16_slist_sublist_guard", "g_slist_sublist_range_iff", ""),
 ]
 FOOTER = ""
